@@ -17,6 +17,7 @@ Nothing here looks at what a rule wants to see; every rewrite is an equivalence 
 on the canonical tree holds on the source."""
 import copy
 import json
+import re
 import os
 
 import tir
@@ -129,6 +130,135 @@ def spell(n):
             if n.get("mac"):
                 out["mac"] = n["mac"]
             return out
+    if k == "Let" and isinstance(n.get("els"), dict) and n.get("init") is not None:
+        # `let Some(x) = opt else { return Err(E) };` is `let x = opt.ok_or_else(|| E)?;`
+        p = n["pat"]
+        els = n["els"]
+        r = None
+        if els.get("k") == "Block" and not els.get("stmts") and (els.get("tail") or {}).get("k") == "Ret":
+            r = els["tail"]
+        elif els.get("k") == "Block" and len(els.get("stmts", [])) == 1 and els.get("tail") is None and (els["stmts"][0].get("e") or {}).get("k") == "Ret":
+            r = els["stmts"][0]["e"]
+        rv = tir.strip(r["e"]) if r is not None and r.get("e") is not None else None
+        ity = n["init"].get("ty") or ""
+        if (rv is not None and rv.get("k") == "Call" and (rv.get("path") or "").endswith("::Err") and len(rv.get("args", [])) == 1 and p.get("k") == "TupleStruct"
+                and (p.get("path") or "").endswith("::Some") and len(p.get("pats", [])) == 1 and p["pats"][0].get("k") in ("Bind", "Wild") and not p["pats"][0].get("sub")
+                and ity.startswith("std::option::Option<")):
+            pay = ity[len("std::option::Option<"):-1]
+            cl = {"k": "Closure", "ty": "{closure}", "sp": rv.get("sp"), "def": None, "params": [], "body": rv["args"][0], "canon": "let-else-err"}
+            call = {"k": "MethodCall", "ty": "std::result::Result<%s, %s>" % (pay, rv["args"][0].get("ty")), "sp": n["init"].get("sp"), "method": "ok_or_else", "path": "std::option::Option::<T>::ok_or_else",
+                    "resolved": None, "local": False, "gargs": [], "recv": n["init"], "args": [cl], "canon": "let-else-err"}
+            out = dict(n)
+            out["pat"] = p["pats"][0]
+            out["init"] = {"k": "Try", "ty": pay, "sp": n["init"].get("sp"), "e": call, "canon": "let-else-err"}
+            out["els"] = None
+            out["canon"] = "let-else-err"
+            return out
+    if k == "Match" and n.get("src") == "Normal" and n.get("ty") == "()" and len(n.get("arms", [])) == 2 and not any(a.get("guard") for a in n["arms"]):
+        # a statement `match opt { Some(P) => A, None => {} }` is `if let Some(P) = opt { A }`
+        some = none = None
+        for a in n["arms"]:
+            p = a["pat"]
+            while p.get("k") == "Ref":
+                p = p["pat"]
+            if p.get("k") == "TupleStruct" and (p.get("path") or "").endswith("::Some") and len(p.get("pats", [])) == 1:
+                some = a
+            elif p.get("k") == "Wild" or (p.get("path") or (p.get("e") or {}).get("path") or "").endswith("::None"):
+                none = a
+        if some is not None and none is not None and (n["scrut"].get("ty") or "").lstrip("&").startswith("std::option::Option<"):
+            nb = none["body"]
+            empty = nb.get("k") == "Block" and not nb.get("stmts") and nb.get("tail") is None or nb.get("k") == "Tup" and not nb.get("elems")
+            if empty:
+                return {"k": "If", "ty": "()", "sp": n.get("sp"), "cond": {"k": "LetCond", "ty": "bool", "sp": n["scrut"].get("sp"), "pat": some["pat"], "init": n["scrut"]},
+                        "then": _as_block(some["body"]), "canon": "match-option-unit"}
+    if k == "Match" and n.get("src") == "Normal" and len(n.get("arms", [])) == 2 and n["arms"][0].get("guard") is not None and not n["arms"][1].get("guard") \
+            and n["arms"][1]["pat"].get("k") == "Wild" and n.get("ty") != "bool":
+        # `match opt { Some(P) if G => A, _ => B }` with A not using P's bindings is `if opt.map_or(false, |P| G) { A } else { B }`
+        a0, a1 = n["arms"]
+        p = a0["pat"]
+        while p.get("k") == "Ref":
+            p = p["pat"]
+        sty = n["scrut"].get("ty") or ""
+        if (p.get("k") == "TupleStruct" and (p.get("path") or "").endswith("::Some") and len(p.get("pats", [])) == 1 and p["pats"][0].get("k") in ("Bind", "Wild") and not p["pats"][0].get("sub")
+                and sty.startswith("std::option::Option<") and not _contains(a0["guard"], ("Ret", "Try", "Break", "Continue"))
+                and not (p["pats"][0].get("k") == "Bind" and any(x.get("k") == "Path" and x.get("id") == p["pats"][0].get("id") for x in tir.walk(a0["body"])))):
+            cl = {"k": "Closure", "ty": "{closure}", "sp": a0["guard"].get("sp"), "def": None, "params": [p["pats"][0]], "body": a0["guard"], "canon": "guard-match"}
+            cond = {"k": "MethodCall", "ty": "bool", "sp": n.get("sp"), "method": "map_or", "path": "std::option::Option::<T>::map_or", "resolved": None, "local": False, "gargs": [],
+                    "recv": n["scrut"], "args": [{"k": "Lit", "lit": "bool", "v": False, "ty": "bool", "sp": n.get("sp")}, cl], "canon": "guard-match"}
+            return {"k": "If", "ty": n.get("ty"), "sp": n.get("sp"), "cond": cond, "then": _as_block(a0["body"]), "else": _as_block(a1["body"]), "canon": "guard-match"}
+    if k == "Match" and n.get("ty") == "bool" and len(n.get("arms", [])) == 2:
+        # `matches!(opt, Some(P) if G)` = `match opt { Some(P) if G => true, _ => false }` with irrefutable P is `opt.map_or(false, |P| G)`
+        a0, a1 = n["arms"]
+        p = a0["pat"]
+        while p.get("k") == "Ref":
+            p = p["pat"]
+        t = tir.strip(a0["body"])
+        f_ = tir.strip(a1["body"])
+        sty = n["scrut"].get("ty") or ""
+        if (a0.get("guard") is not None and not a1.get("guard") and a1["pat"].get("k") == "Wild" and t.get("k") == "Lit" and t.get("v") is True and f_.get("k") == "Lit" and f_.get("v") is False
+                and p.get("k") == "TupleStruct" and (p.get("path") or "").endswith("::Some") and len(p.get("pats", [])) == 1 and p["pats"][0].get("k") in ("Bind", "Wild") and not p["pats"][0].get("sub")
+                and sty.startswith("std::option::Option<") and not _contains(a0["guard"], ("Ret", "Try", "Break", "Continue"))):
+            cl = {"k": "Closure", "ty": "{closure}", "sp": a0["guard"].get("sp"), "def": None, "params": [p["pats"][0]], "body": a0["guard"], "canon": "matches"}
+            return {"k": "MethodCall", "ty": "bool", "sp": n.get("sp"), "method": "map_or", "path": "std::option::Option::<T>::map_or", "resolved": None, "local": False, "gargs": [],
+                    "recv": n["scrut"], "args": [f_, cl], "canon": "matches"}
+    if k in ("Match", "If") and (n.get("ty") or "()") not in ("()", "!"):
+        # a value computed by `match opt { Some(P) => A, None => B }` / `if let Some(P) = opt { A } else { B }` with B free of side
+        # effects and A free of control flow leaving it is `opt.map_or(B, |P| A)`
+        scrut = some = none = None
+        if k == "Match" and n.get("src") == "Normal" and len(n["arms"]) == 2 and not any(a.get("guard") for a in n["arms"]):
+            scrut = n["scrut"]
+            for a in n["arms"]:
+                p = a["pat"]
+                while p.get("k") == "Ref":
+                    p = p["pat"]
+                if p.get("k") == "TupleStruct" and (p.get("path") or "").endswith("::Some") and len(p.get("pats", [])) == 1:
+                    some = (p["pats"][0], a["body"])
+                elif (p.get("k") == "Path" or p.get("k") == "Lit" and p["e"].get("k") == "Path") and ((p.get("path") or (p.get("e") or {}).get("path") or "").endswith("::None")):
+                    none = a["body"]
+                elif p.get("k") == "Wild":
+                    none = a["body"]
+        elif k == "If" and n["cond"].get("k") == "LetCond" and n.get("else") is not None:
+            p = n["cond"]["pat"]
+            while p.get("k") == "Ref":
+                p = p["pat"]
+            if p.get("k") == "TupleStruct" and (p.get("path") or "").endswith("::Some") and len(p.get("pats", [])) == 1:
+                scrut, some, none = n["cond"]["init"], (p["pats"][0], n["then"]), n["else"]
+        sty = (scrut or {}).get("ty") or ""
+        def irrefutable(p):
+            if p.get("k") in ("Wild",) or p.get("k") == "Bind" and not p.get("sub"):
+                return True
+            if p.get("k") == "Ref":
+                return irrefutable(p["pat"])
+            if p.get("k") == "Tuple":
+                return all(irrefutable(x) for x in p.get("pats", []))
+            return False
+        if scrut is not None and some is not None and none is not None and irrefutable(some[0]) and sty.lstrip("&").startswith("std::option::Option<") and pure_expr(none) \
+                and not _contains(some[1], ("Ret", "Try", "Break", "Continue")) and not _contains(none, ("Ret", "Try", "Break", "Continue")):
+            recv = scrut
+            if sty.startswith("&"):
+                inner = tir.strip(scrut)
+                base = scrut["e"] if scrut.get("k") == "AddrOf" else scrut
+                recv = {"k": "MethodCall", "ty": "std::option::Option<&%s>" % sty.lstrip("&")[len("std::option::Option<"):-1], "sp": scrut.get("sp"), "method": "as_ref",
+                        "path": "std::option::Option::<T>::as_ref", "resolved": None, "local": False, "gargs": [], "recv": base, "args": [], "canon": "match-option"}
+            nb = none
+            if nb.get("k") == "Block" and not nb.get("stmts") and nb.get("tail") is not None:
+                nb = nb["tail"]
+            sb = some[1]
+            if sb.get("k") == "Block" and not sb.get("stmts") and sb.get("tail") is not None and sb["tail"].get("k") != "Block":
+                sb = sb["tail"]
+            sbs, nbs = tir.strip(sb), tir.strip(nb)
+            if some[0].get("k") == "Bind" and sbs.get("k") == "Path" and sbs.get("res") == "local" and sbs.get("id") == some[0].get("id"):
+                # `Some(x) => x, None => D`: unwrap_or(D)
+                return {"k": "MethodCall", "ty": n.get("ty"), "sp": n.get("sp"), "method": "unwrap_or", "path": "std::option::Option::<T>::unwrap_or", "resolved": None, "local": False,
+                        "gargs": [], "recv": recv, "args": [nb], "canon": "match-option"}
+            if (nbs.get("k") == "Path" and (nbs.get("path") or "").endswith("::None") and sbs.get("k") == "Call" and (sbs.get("path") or "").endswith("::Some") and len(sbs.get("args", [])) == 1):
+                # `Some(P) => Some(X), None => None`: map(|P| X)
+                cl = {"k": "Closure", "ty": "{closure}", "sp": some[1].get("sp"), "def": None, "params": [some[0]], "body": sbs["args"][0], "canon": "match-option"}
+                return {"k": "MethodCall", "ty": n.get("ty"), "sp": n.get("sp"), "method": "map", "path": "std::option::Option::<T>::map", "resolved": None, "local": False,
+                        "gargs": [], "recv": recv, "args": [cl], "canon": "match-option"}
+            cl = {"k": "Closure", "ty": "{closure}", "sp": some[1].get("sp"), "def": None, "params": [some[0]], "body": sb, "canon": "match-option"}
+            return {"k": "MethodCall", "ty": n.get("ty"), "sp": n.get("sp"), "method": "map_or", "path": "std::option::Option::<T>::map_or", "resolved": None, "local": False,
+                    "gargs": [], "recv": recv, "args": [nb, cl], "canon": "match-option"}
     if k == "Call" and len(n.get("args", [])) == 1 and (n.get("path") or "") in ("std::convert::From::from",) :
         dst = n.get("ty")
         src = tir.strip(n["args"][0]).get("ty") if n["args"][0].get("k") != "AddrOf" else None
@@ -479,6 +609,21 @@ def inline_helpers(doc, anchors):
     for p, bs in bodies.items():
         for b in bs:
             flatten_blocks(b["tir"]["value"])
+    # a helper none of whose uses is left is dead from the typed trees' point of view (its code now stands in its callers):
+    # whole-crate scans (who-may-call, inventories) skip its own body so that nothing is counted twice
+    left = set()
+    for b in doc["bodies"]:
+        if b.get("tir") and b["path"] not in report:
+            for x in tir.walk(b["tir"]["value"]):
+                if x.get("k") in ("Call", "MethodCall"):
+                    for c in (tir.callee(x), tir.declared(x)):
+                        if c in report:
+                            left.add(c)
+                elif x.get("k") == "Path" and x.get("res") == "def" and x.get("path") in report:
+                    left.add(x["path"])
+    for h in report:
+        if h not in left and not any(h in deps.get(o, ()) and o in left for o in report):
+            bodies[h][0]["fully_inlined"] = True
     return report
 
 
@@ -903,7 +1048,9 @@ def try_for_each_to_for(root):
     n = 0
 
     def closure_ok(cl):
-        return cl.get("k") == "Closure" and len(cl["params"]) == 1 and not any(x.get("k") == "Ret" for x in _strip_closures(cl["body"]))
+        # a `return Err(..)` inside the closure ends the iteration with that error, which the `?` on the call returns from the
+        # function: in the loop form it is the same `return Err(..)`. (A `return Ok(..)` would be a `continue`: not converted.)
+        return cl.get("k") == "Closure" and len(cl["params"]) == 1 and all(_is_err_value(x.get("e")) for x in _strip_closures(cl["body"]) if x.get("k") == "Ret")
 
     def make_for(call, with_try):
         cl = tir.strip(call["args"][0])
@@ -935,6 +1082,105 @@ def try_for_each_to_for(root):
             blk["tail"] = ok_unit
             n += 1
     return n
+
+
+def match_to_try(root):
+    """`match e { Ok(x) => A, Err(err) => return Err(err) }` (with `err`, `err.into()` or `From::from(err)`) is `{ let x = e?; A }`;
+    in tail position of a fn or closure body the error arm may be the value `Err(err)` itself. (Tail marks must be present.)"""
+    n_done = 0
+
+    def passes_err(x, eid):
+        x = tir.strip(x)
+        if x.get("k") == "Path" and x.get("res") == "local" and x.get("id") == eid:
+            return True
+        if x.get("k") == "MethodCall" and x.get("method") == "into" and not x.get("args"):
+            return passes_err(x["recv"], eid)
+        if x.get("k") == "Call" and len(x.get("args", [])) == 1 and (x.get("path") or "").endswith("From::from"):
+            return passes_err(x["args"][0], eid)
+        return False
+
+    def unblock(b):
+        b = tir.strip(b)
+        while b.get("k") == "Block" and not b.get("stmts") and b.get("tail") is not None:
+            b = tir.strip(b["tail"])
+        if b.get("k") == "Block" and len(b.get("stmts", [])) == 1 and b.get("tail") is None and b["stmts"][0].get("k") == "Expr":
+            b = tir.strip(b["stmts"][0]["e"])
+        return b
+
+    def one(m):
+        if not (m.get("k") == "Match" and m.get("src") == "Normal" and len(m["arms"]) == 2 and not any(a.get("guard") for a in m["arms"])):
+            return None
+        if not (m["scrut"].get("ty") or "").startswith("std::result::Result<"):
+            return None
+        ok = err = None
+        for a in m["arms"]:
+            p = a["pat"]
+            if p.get("k") == "TupleStruct" and len(p.get("pats", [])) == 1:
+                if (p.get("path") or "").endswith("::Ok"):
+                    ok = a
+                elif (p.get("path") or "").endswith("::Err"):
+                    err = a
+        if ok is None or err is None:
+            return None
+        okp, ep = ok["pat"]["pats"][0], err["pat"]["pats"][0]
+        if okp.get("k") == "Tuple" and not okp.get("pats"):
+            okp = {"k": "Wild", "ty": "()", "sp": okp.get("sp")}
+        if not (okp.get("k") in ("Bind", "Wild") and not okp.get("sub") and ep.get("k") == "Bind" and not ep.get("sub")):
+            return None
+        eb = unblock(err["body"])
+        if eb.get("k") == "Ret":
+            v = tir.strip(eb.get("e") or {})
+        elif m.get("_tail") is not None:
+            v = eb
+        else:
+            return None
+        if not (v.get("k") == "Call" and (v.get("path") or "").endswith("::Err") and len(v.get("args", [])) == 1 and passes_err(v["args"][0], ep.get("id"))):
+            return None
+        payload = okp.get("ty") or ""
+        tr = {"k": "Try", "ty": payload, "sp": m["scrut"].get("sp"), "e": m["scrut"], "canon": "match-try"}
+        ob = unblock(ok["body"])
+        if okp.get("k") == "Bind" and ob.get("k") == "Path" and ob.get("res") == "local" and ob.get("id") == okp.get("id"):
+            return tr             # `Ok(x) => x`: the match is the `?` expression itself
+        body = _as_block(ok["body"])
+        if okp.get("k") == "Wild":
+            first = {"k": "Expr", "e": tr, "semi": True}
+        else:
+            first = {"k": "Let", "sp": m.get("sp"), "mac": [], "pat": okp, "init": tr, "els": None}
+        return {"k": "Block", "ty": m.get("ty"), "sp": m.get("sp"), "stmts": [first] + list(body.get("stmts", [])), "tail": body.get("tail"), "canon": "match-try"}
+
+    for m in list(tir.walk(root)):
+        # in tail position `x.map_err(From::from)` (or `Error::from`, `Into::into`) is `Ok(x?)`
+        if m.get("k") == "MethodCall" and m.get("method") == "map_err" and m.get("_tail") is not None and len(m.get("args", [])) == 1 \
+                and (m["recv"].get("ty") or "").startswith("std::result::Result<") and (m.get("ty") or "").startswith("std::result::Result<"):
+            a = tir.strip(m["args"][0])
+            if a.get("k") == "Path" and a.get("res") == "def" and re.search(r"(From(<.*>)?>?::from|Into(<.*>)?>?::into)$", a.get("path") or ""):
+                pay = re.match(r"std::result::Result<(.*), [^,]+>$", m["recv"].get("ty") or "")
+                tr = {"k": "Try", "ty": pay.group(1) if pay else "()", "sp": m["recv"].get("sp"), "e": m["recv"], "canon": "map_err-from"}
+                tl = m.get("_tail")
+                new_node = {"k": "Call", "ty": m.get("ty"), "sp": m.get("sp"), "res": "def", "dk": "Ctor(Variant, Fn)", "path": "std::prelude::v1::Ok", "args": [tr], "canon": "map_err-from", "_tail": tl}
+                m.clear()
+                m.update(new_node)
+                n_done += 1
+    for blk in list(tir.walk(root)):
+        if blk.get("k") != "Block":
+            continue
+        t = blk.get("tail")
+        if isinstance(t, dict):
+            nb = one(t)
+            if nb is not None and nb.get("k") == "Block":
+                blk["stmts"] = list(blk.get("stmts", [])) + nb["stmts"]
+                blk["tail"] = nb["tail"]
+                n_done += 1
+    for m in list(tir.walk(root)):
+        nb = one(m)
+        if nb is not None:
+            tl = m.get("_tail")
+            m.clear()
+            m.update(nb)
+            if tl is not None:
+                m["_tail"] = tl
+            n_done += 1
+    return n_done
 
 
 # ------------------------------------------------------------------------------------------------ G: guard clauses
@@ -1009,6 +1255,126 @@ def guards_to_if_else(body_root):
         blk["tail"] = new_if
         n += 1
         blk = rest
+    return n
+
+
+def let_else_return_to_if_let(root):
+    """In a block in tail position of a body, `let P = e else { return T }; rest..; T` with T a constant success value
+    (`Ok(())`, `None`, `()`..) and no other non-error return in rest is `if let P = e { rest.. }; T`. (Tail marks must be present.)"""
+    n = 0
+
+    def const_value(e):
+        e = tir.strip(e or {})
+        if e.get("k") == "Call" and (e.get("path") or "").endswith(("::Ok", "::Some")) and len(e.get("args", [])) == 1:
+            return const_value(e["args"][0])
+        if e.get("k") == "Tup" and not e.get("elems"):
+            return True
+        if e.get("k") == "Path" and e.get("res") == "def" and (e.get("path") or "").endswith("::None"):
+            return True
+        if e.get("k") == "Lit":
+            return True
+        return False
+
+    for blk in list(tir.walk(root)):
+        if blk.get("k") != "Block" or blk.get("_tail") is None:
+            continue
+        stmts = blk.get("stmts", [])
+        tail = blk.get("tail")
+        unit = tail is None
+        general = not unit and not const_value(tail)
+        for i, s in enumerate(stmts):
+            if s.get("k") == "Let" and isinstance(s.get("els"), dict):
+                els = s["els"]
+                r = None
+                if els.get("k") == "Block" and not els.get("stmts") and (els.get("tail") or {}).get("k") == "Ret":
+                    r = els["tail"]
+                elif els.get("k") == "Block" and len(els.get("stmts", [])) == 1 and els.get("tail") is None and (els["stmts"][0].get("e") or {}).get("k") == "Ret":
+                    r = els["stmts"][0]["e"]
+                if r is None:
+                    continue
+                rv = tir.strip(r["e"]) if r.get("e") is not None else None
+                if general or (not unit and rv is not None and tir.pretty(rv) != tir.pretty(tir.strip(tail))):
+                    # `let P = e else { return T }; rest..; X` in tail position is `if let P = e { rest..; X } else { T }`
+                    if rv is None or _is_err_value(rv):
+                        continue
+                    rest = stmts[i + 1:]
+                    cond = {"k": "LetCond", "ty": "bool", "sp": s.get("sp"), "pat": s["pat"], "init": s["init"]}
+                    then = {"k": "Block", "ty": blk.get("ty"), "sp": s.get("sp"), "stmts": rest, "tail": tail, "_tail": blk.get("_tail")}
+                    other = {"k": "Block", "ty": blk.get("ty"), "sp": r.get("sp"), "stmts": [], "tail": r["e"], "_tail": blk.get("_tail")}
+                    blk["stmts"] = stmts[:i]
+                    blk["tail"] = {"k": "If", "ty": blk.get("ty"), "sp": s.get("sp"), "cond": cond, "then": then, "else": other, "canon": "let-else-return", "_tail": blk.get("_tail")}
+                    n += 1
+                    break
+                if unit:
+                    if not (rv is None or rv.get("k") == "Tup" and not rv.get("elems")):
+                        continue
+                elif rv is None or tir.pretty(rv) != tir.pretty(tir.strip(tail)):
+                    continue
+                rest = stmts[i + 1:]
+                if any(x.get("k") == "Ret" and not _is_err_value(x.get("e")) for st in rest for x in _strip_closures(st)):
+                    continue
+                cond = {"k": "LetCond", "ty": "bool", "sp": s.get("sp"), "pat": s["pat"], "init": s["init"]}
+                then = {"k": "Block", "ty": "()", "sp": s.get("sp"), "stmts": rest, "tail": None}
+                new_if = {"k": "If", "ty": "()", "sp": s.get("sp"), "cond": cond, "then": then, "canon": "let-else-return"}
+                blk["stmts"] = stmts[:i] + [{"k": "Expr", "e": new_if, "semi": False}]
+                then["_tail"] = None
+                n += 1
+                break
+    return n
+
+
+def last_return_to_try(root):
+    """In a body whose tail is the constant `Ok(())`, a `return E` (E a Result of the body's type, not an `Err(..)`) that is the
+    last thing executed before that tail — the end of the last statement, through nested `if` / `if let` / blocks without
+    else-branches after it — is `E?;`: if E is Err both return it, if it is Ok(()) both end with Ok(()). (Tail marks present.)"""
+    n = 0
+    if root.get("k") != "Block" or root.get("tail") is None:
+        return 0
+    t = tir.strip(root["tail"])
+    if not (t.get("k") == "Call" and (t.get("path") or "").endswith("::Ok") and len(t.get("args", [])) == 1 and tir.strip(t["args"][0]).get("k") == "Tup" and not tir.strip(t["args"][0]).get("elems")):
+        return 0
+    rty = root.get("ty")
+
+    def last_of(blk):
+        """rewrite a trailing `return E` at the end of blk (a Block) or of the last nested if in it"""
+        nonlocal n
+        if blk.get("k") != "Block":
+            return
+        if blk.get("tail") is not None:
+            e = blk["tail"]
+            holder, key = blk, "tail"
+        elif blk.get("stmts"):
+            st = blk["stmts"][-1]
+            if st.get("k") != "Expr":
+                return
+            e = st["e"]
+            holder, key = st, "e"
+        else:
+            return
+        if e.get("k") == "Ret" and e.get("e") is not None and not _is_err_value(e["e"]) and e["e"].get("ty") == rty:
+            tr = {"k": "Try", "ty": "()", "sp": e.get("sp"), "e": e["e"], "canon": "last-return"}
+            if key == "tail":
+                blk["stmts"] = list(blk.get("stmts", [])) + [{"k": "Expr", "e": tr, "semi": True}]
+                blk["tail"] = None
+            else:
+                holder["e"] = tr
+                holder["semi"] = True
+            n += 1
+        elif e.get("k") == "If":
+            last_of(e["then"])
+            if e.get("else") is not None:
+                last_of(e["else"])
+        elif e.get("k") == "Block":
+            last_of(e)
+        elif e.get("k") == "Match":
+            for a in e["arms"]:
+                if a["body"].get("k") == "Block":
+                    last_of(a["body"])
+    if root.get("stmts"):
+        st = root["stmts"][-1]
+        if st.get("k") == "Expr" and isinstance(st.get("e"), dict):
+            fake = {"k": "Block", "stmts": [st], "tail": None}
+            last_of(fake)
     return n
 
 
@@ -1116,6 +1482,10 @@ def canonicalise(doc):
     _ERR_FNS.update(always_err_fns(doc))
     for b in doc["bodies"]:
         if b.get("tir") and b["kind"] in ("Fn", "AssocFn"):
+            mark_tails(b["tir"]["value"])
+            n_guards += let_else_return_to_if_let(b["tir"]["value"])
+            n_guards += last_return_to_try(b["tir"]["value"])
+            clear_tails(b["tir"]["value"])
             n_guards += guards_to_if_else(b["tir"]["value"])
     if n_guards:
         doc["_guard_clauses"] = n_guards
@@ -1124,6 +1494,7 @@ def canonicalise(doc):
     for b in doc["bodies"]:
         if b.get("tir") and b["kind"] in ("Fn", "AssocFn"):
             mark_tails(b["tir"]["value"])
+            n_loops += match_to_try(b["tir"]["value"])
             n_loops += try_for_each_to_for(b["tir"]["value"])
             clear_tails(b["tir"]["value"])
             n_loops += accumulations_to_sums(b["tir"]["value"])
